@@ -773,7 +773,7 @@ theorem portStatsRequest_actual (v : V) (bs : Bytes) (v' : V) (hm : PortStatsReq
     obtain ⟨rfl, _⟩ := same_ok _ _ _ _ h3
     refine ⟨p, pad, rfl, ?_⟩
     have := fill_be16_at _ _ _ hf 0 _ rfl 0 (by lay_off)
-    rw [this, n16_toNat]
+    rw [this, lay_n16_toNat]
   · exact absurd hm (by simp)
 
 /-- … and the counterexample to the layout row (PortNo, offset 0, 32 bits): port 1 with the constructor's padding
@@ -800,7 +800,7 @@ theorem queueStatsRequest_actual (v : V) (bs : Bytes) (v' : V) (hm : QueueStatsR
     refine ⟨?_, p, pad, q, rfl, ?_⟩
     · lay_num hf
     · have := fill_be16_at _ _ _ hf 0 _ rfl 0 (by lay_off)
-      rw [this, n16_toNat]
+      rw [this, lay_n16_toNat]
   · exact absurd hm (by simp)
 
 theorem queueStatsRequest_layout_counterexample :
@@ -1223,17 +1223,17 @@ theorem flowMod_layout (h : V) (ck cm tid cmd it ht pr bid op og fl : Nat) (pad 
   intro f hf
   lay_rows hf
   rcases hf with rfl | rfl | rfl | rfl | rfl | rfl | rfl | rfl | rfl | rfl | rfl
-  · show beAt bs 8 8 = ck % 2 ^ (8 * 8); rw [← n64_toNat]; exact h1
-  · show beAt bs 16 8 = cm % 2 ^ (8 * 8); rw [← n64_toNat]; exact h2
-  · show beAt bs 24 1 = tid % 2 ^ (8 * 1); rw [← n8_toNat]; exact h3
-  · show beAt bs 25 1 = cmd % 2 ^ (8 * 1); rw [← n8_toNat]; exact h4
-  · show beAt bs 26 2 = it % 2 ^ (8 * 2); rw [← n16_toNat]; exact h5
-  · show beAt bs 28 2 = ht % 2 ^ (8 * 2); rw [← n16_toNat]; exact h6
-  · show beAt bs 30 2 = pr % 2 ^ (8 * 2); rw [← n16_toNat]; exact h7
-  · show beAt bs 32 4 = bid % 2 ^ (8 * 4); rw [← n32_toNat]; exact h8
-  · show beAt bs 36 4 = op % 2 ^ (8 * 4); rw [← n32_toNat]; exact h9
-  · show beAt bs 40 4 = og % 2 ^ (8 * 4); rw [← n32_toNat]; exact h10
-  · show beAt bs 44 2 = fl % 2 ^ (8 * 2); rw [← n16_toNat]; exact h11
+  · show beAt bs 8 8 = ck % 2 ^ (8 * 8); rw [← lay_n64_toNat]; exact h1
+  · show beAt bs 16 8 = cm % 2 ^ (8 * 8); rw [← lay_n64_toNat]; exact h2
+  · show beAt bs 24 1 = tid % 2 ^ (8 * 1); rw [← lay_n8_toNat]; exact h3
+  · show beAt bs 25 1 = cmd % 2 ^ (8 * 1); rw [← lay_n8_toNat]; exact h4
+  · show beAt bs 26 2 = it % 2 ^ (8 * 2); rw [← lay_n16_toNat]; exact h5
+  · show beAt bs 28 2 = ht % 2 ^ (8 * 2); rw [← lay_n16_toNat]; exact h6
+  · show beAt bs 30 2 = pr % 2 ^ (8 * 2); rw [← lay_n16_toNat]; exact h7
+  · show beAt bs 32 4 = bid % 2 ^ (8 * 4); rw [← lay_n32_toNat]; exact h8
+  · show beAt bs 36 4 = op % 2 ^ (8 * 4); rw [← lay_n32_toNat]; exact h9
+  · show beAt bs 40 4 = og % 2 ^ (8 * 4); rw [← lay_n32_toNat]; exact h10
+  · show beAt bs 44 2 = fl % 2 ^ (8 * 2); rw [← lay_n16_toNat]; exact h11
 
 /-- GroupMod (commands other than DELETE): the encodings of the buckets, complete and IN LIST ORDER, from offset 16 -/
 theorem groupMod_buckets_in_order (v : V) (bs : Bytes) (v' : V) (hm : GroupMod.marshalM v = .ok (bs, v')) :
